@@ -128,11 +128,11 @@ Section Session2.
     { destruct (fc_st _ _ _ (fs_frame _ _ _ _ _ F)) as [E|[E _]]; [exact E|]. cbn in E. congruence. }
     (* unbinding in the state that still has its packet-id table *)
     destruct (unbind_all_spec X (s_uq (r_s r)) (r_s r) (fs_wfs _ _ _ _ _ F) EppA EpnA) as (U1 & U2 & U3 & U4 & U5 & U6).
-    set (s2 := fold_left unbind (s_uq (r_s r)) (r_s r)) in *.
     (* ... and in the real one, where the table was cleared first *)
     set (sA' := (r_s r) <| s_q2in := [] |> <| s_alloc := [] |>).
     destruct (unbind_all_comm (s_uq (r_s r)) (r_s r) sA' eq_refl eq_refl) as (C1 & C2).
     change (s_uq sA') with (s_uq (r_s r)).
+    set (s2 := fold_left unbind (s_uq (r_s r)) (r_s r)) in *.
     set (s2' := fold_left unbind (s_uq (r_s r)) sA') in *. clearbody s2 s2'.
     unfold but_aq2 in C1. tuple_eqs C1. unfold but_oa in U2. tuple_eqs U2.
     (* existence in s2 goes back to s *)
